@@ -25,6 +25,12 @@ type Plan struct {
 	// blocked streams and each tryUnblock (gate streamer.heartbeat.beforeUnblock), which widens the
 	// window in which a stream of the snapshot is no longer blocked.
 	HeartbeatStallUs int `json:"heartbeat_stall_us,omitempty"`
+	// AttachStallUs > 0: a processor pauses that long between popping a charged stream and attaching to
+	// it (gate streamer.join.beforeAttach). PoolWaitStallUs > 0: a reader pauses between finding the pool
+	// full and waiting on its condition (gates pool.*.beforeWait; real time only, the low-memory pool's
+	// window lies inside a mutex).
+	AttachStallUs   int `json:"attach_stall_us,omitempty"`
+	PoolWaitStallUs int `json:"pool_wait_stall_us,omitempty"`
 }
 
 // Source is one input source (like one file): records with increasing offsets.
@@ -292,6 +298,12 @@ func GenPlan(t *rapid.T, g GenOpts) Plan {
 	}
 	if rapid.IntRange(0, 2).Draw(t, "hbstall") == 0 {
 		p.HeartbeatStallUs = rapid.SampledFrom([]int{200, 1000, 5000}).Draw(t, "hbstall_us")
+	}
+	if rapid.IntRange(0, 3).Draw(t, "attachstall") == 0 {
+		p.AttachStallUs = rapid.SampledFrom([]int{50, 500, 3000}).Draw(t, "attachstall_us")
+	}
+	if !g.Virtual && rapid.IntRange(0, 3).Draw(t, "poolstall") == 0 {
+		p.PoolWaitStallUs = rapid.SampledFrom([]int{50, 500, 3000}).Draw(t, "poolstall_us")
 	}
 	p.Output = genOutput(t, g, "out")
 	if g.RetryStorm {
